@@ -55,4 +55,9 @@ CLAIMED = {
   text="Every spec-valid comparator shape up to the tier's length, for all 11 schemes and 2-3 version pools each, is evaluated on probes at, between, below and above every bound; the expected value is the reference union-of-intervals semantics over the scheme's Compare.",
   note="n <= 4 (quick) / 6 (thorough) constraints (the property names 8); bound versions come from fixed pools that are validated as strictly increasing on every run; pypi pre-release default exclusion is part of the oracle.",
   ref="DESIGN.md 4 (C04), Appendix A.8"),
+ "C16": dict(
+  technique="bounded-exhaustive metamorphic enumeration: every spec-valid VERS shape up to n constraints x all permutations x whitespace-insertion patterns x duplication patterns x empty-constraint patterns x every probe, on the real vers.Contains, compared with the canonical spelling",
+  text="For every enumerated base range all n! orders, the stated families of space insertions, duplications and empty constraints are generated and each variant must give the same (result, error-ness) as the canonical spelling on every probe - a relation between executions, decided for every enumerated variant.",
+  note="n <= 3 (quick) / 5 (thorough, every 4th shape at n=5); whitespace patterns are all subsets for <= 10 slots and all singles/pairs beyond, plus a space at every inner position of every version text. Only SP is inserted.",
+  ref="DESIGN.md 4 (C16)"),
 }
